@@ -453,6 +453,8 @@ def gen_reply(rng, key, mode=None):
                                    ('dup', [b'websocket', b'websocket']), ('websockets', [b'websockets']), ('web-socket', [b'web socket']),
                                    ('quoted', [b'"websocket"']), ('TLS', [b'TLS/1.0']),
                                    # values that end up in the Rejected reason: format directives in them must not matter
+                                   # non-ASCII look-alikes: only the exact ASCII token (any letter case) is the token
+                                   ('kelvin', [b'websoc\xe2\x84\xaaet']), ('nbsp', [b'\xc2\xa0websocket\xc2\xa0']), ('fullwidth', ['\uff57ebsocket'.encode('utf-8')]), ('dotless-i', [b'websocket\xc4\xb1'[:9] + b'\xc4\xb1']),
                                    ('braces', [b'{upgrade}']), ('brace-tail', [b'websocket}']), ('index', [b'{0} {}']), ('percent', [b'%s %d %(x)s']), ('lone-brace', [b'{'])])
         intended = 'rejected'
     elif mode == 'accept':
